@@ -261,3 +261,31 @@ func VerifVersionTxt(v *WarcVersion) string {
 	}
 	return v.txt
 }
+
+// ---- validateHeader alone
+
+func VerifValidateHeader(opts []WarcRecordOption, verTxt string, pairs [][2]string) (rt RecordType, after [][2]string, findings []string, errTag string) {
+	o := newOptions(opts...)
+	wf := &WarcFields{}
+	for _, nv := range pairs {
+		wf.Add(nv[0], nv[1])
+	}
+	var v *WarcVersion
+	switch verTxt {
+	case "1.0":
+		v = V1_0
+	case "1.1":
+		v = V1_1
+	default:
+		v = &WarcVersion{txt: verTxt}
+	}
+	val := &Validation{}
+	rt, err := validateHeader(wf, v, val, o)
+	for _, e := range *val {
+		findings = append(findings, VerifClassify(e))
+	}
+	if err != nil {
+		errTag = VerifClassify(err)
+	}
+	return rt, VerifPairs(wf), findings, errTag
+}
